@@ -166,13 +166,14 @@ GnuBefore(S, all, i, j) ==
              \/ GnuPrio(ki) = GnuPrio(kj) /\ NameRank(ki) < NameRank(kj)
              \/ GnuPrio(ki) = GnuPrio(kj) /\ NameRank(ki) = NameRank(kj) /\ i < j
 
-GnuArray(S, A) ==
-    LET all == SecsOfObjs(S, GnuLinkOrder(S))
-        mine == SetToSortSeq({i \in 1..Len(all) : OutOf(KindOf(S, all[i]).a) = A},
+GnuArrayOf(S, all, A) ==
+    LET mine == SetToSortSeq({i \in 1..Len(all) : OutOf(KindOf(S, all[i]).a) = A},
                              LAMBDA i, j : GnuBefore(S, all, i, j))
     IN  FlattenSeq([k \in 1..Len(mine) |-> Placed(S, all[mine[k]])])
+GnuArray(S, A) == GnuArrayOf(S, SecsOfObjs(S, GnuLinkOrder(S)), A)
 
-Order(S) == [A \in OutSet |-> GnuArray(S, A)]
+Order(S) == LET all == SecsOfObjs(S, GnuLinkOrder(S))
+            IN  [A \in OutSet |-> GnuArrayOf(S, all, A)]
 
 -----------------------------------------------------------------------------
 (* Declarative classes of scenarios in which a deviation can matter. *)
@@ -188,7 +189,7 @@ InClassK(d, S, K) ==
                           /\ \E k2 \in K : /\ OutOf(k1.a) = OutOf(k2.a) /\ ~Legacy(k2.a)
                                              /\ k2.p # NoPrio /\ GnuPrio(k1) = GnuPrio(k2)
       [] d = "arorder" ->
-           ExtractSeq(S) # SelectSeq(MemberSeq(S), LAMBDA m : m \in ToSet(ExtractSeq(S)))
+           LET ex == ExtractSeq(S) IN ex # SelectSeq(MemberSeq(S), LAMBDA m : m \in ToSet(ex))
       [] OTHER -> FALSE
 InClass(d, S) == InClassK(d, S, LinkedKinds(S))
 ClassesOf(S) == LET K == LinkedKinds(S) IN {d \in Devs : InClassK(d, S, K)}
